@@ -103,7 +103,7 @@ def in_grammar(ob, s):
         return False
     if any(not re.fullmatch(x, s) for x in ob["len"]):
         return False
-    return not any(re.search(c, s, re.I) for c in ob["carves"])
+    return not any(re.search(c, s) for c in ob["carves"])
 
 
 def expected_class(ob):
@@ -419,7 +419,7 @@ def correspondence(rep, rx, plats, rng, thorough, info_all):
                 member = in_grammar(ob, t)
                 if member:
                     dist["members"] += 1
-                elif any(re.search(c, t, re.I) for c in ob["carves"]):
+                elif any(re.search(c, t) for c in ob["carves"]):
                     dist["carved"] += 1
                 else:
                     dist["near_misses"] += 1
